@@ -15,26 +15,26 @@ NA = {
 }
 CHECKS = {
  "C03": dict(cat="exploration", ref="§4 C03", technique="deterministic simulation: seeded scheduler over file-set compositions (company, placement, argv/readdir order, hash seed) on a tmpfs disk; metamorphic oracle against the alone-run",
-   text="Seeded exploration of compositions of a compilation set around a faulty file: the faulty file alone is the reference run; the same file in scheduler-chosen company (0-4 valid files, up to 8 declarations, name reuse), placement, argument/discovery order, hash seed and entry point (cli::check and the Project API) must still fail and re-report its non-curable codes at the same place. Sampling, not enumeration.",
+   text="Seeded exploration of compositions of a compilation set around a faulty file: the faulty file alone is the reference run; the same file in scheduler-chosen company (0-4 valid files, up to 8 declarations, name reuse; one variant in eight with 6-17 more files; files present only as symbolic links), placement, argument/discovery order, hash seed and entry point (cli::check and the Project API) must still fail and re-report its non-curable codes at the same place. Sampling, not enumeration.",
    note="Trusts the analyzer's own verdict on the faulty file alone as reference (worlds whose faulty file does not fail alone are discarded and counted as trivial); name clashes are only required to fail, not to produce a particular code."),
  "C06": dict(cat="exploration", ref="§4 C06", technique="deterministic simulation: seeded scheduler over declaration permutation, file partition, argv/readdir order and OS randomness (hash iteration order via a getrandom seam); metamorphic oracle across variants of one world",
    text="Each run realises one generated world in 10-24 variants chosen by the scheduler (declaration permutation x partition into <=3 files x argv list/directory/mixture x readdir permutation x hash seed x entry point, plus repeats differing only in OS randomness) and demands the same verdict everywhere and, for single-fault worlds, the same code at the same declaration-relative location. One seed = one exactly repeatable execution; failures are minimised and replayed from a trace file.",
    note="Hash iteration order is controlled by interposing getrandom (self-checked on every start); location is compared only when the canonical run places it inside the planted fault; faults made of two declarations may be reported at either one."),
  "C11": dict(cat="exploration", ref="§4 C11", technique="deterministic simulation: real server thread driven in capacity-0 lockstep by a simulated editor, with crash/restart, duplicated delivery and seeded hash order; per-step comparison with a fresh-server reference model and with the real cli::check",
    text="All notification histories of length <=3 (quick) / <=4 (thorough) over 2 URIs x 5 document classes x {didOpen, didChange} are enumerated, plus random histories up to length 40 with crash/restart, duplicate delivery, multi-change notifications and workspace folders. After every step: exactly one publishDiagnostics(uri, version); equality with a freshly started server holding the current contents; agreement of codes and start positions with cli::check on the same contents.",
-   note="The fresh server and cli::check are the same code base (differential against itself under a different history/entry point), so an error common to all three is not seen (e.g. the masked parse error of DESIGN §8 row 1 is invisible to C11); 'exactly one publishDiagnostics' counts the publishes for the notified document, other server output is not constrained; ASCII documents only."),
- "C12": dict(cat="fault_enumeration", ref="§4 C12", technique="deterministic simulation with protocol fault injection: seeded random message histories (unknown methods, client responses, empty/multiple content changes, odd URIs, duplicated delivery) against the real server thread in lockstep; protocol monitor over the recorded history",
+   note="The fresh server and cli::check are the same code base (differential against itself under a different history/entry point), so an error common to all three is not seen (e.g. the masked parse error of DESIGN §8 row 1 is invisible to C11); 'exactly one publishDiagnostics' counts the publishes for the notified document, other server output is not constrained; for non-ASCII documents a publish is accepted iff its start positions agree with check in ONE unit (characters, UTF-16 units or bytes) used for all of its diagnostics. Every server incarnation (before/after a simulated crash, every fresh reference server) is a forked process of its own."),
+ "C12": dict(cat="fault_enumeration", ref="§4 C12", technique="deterministic simulation with protocol fault injection: seeded random message histories (unknown methods, requests named like notifications and vice versa, client responses, empty/multiple content changes, odd URIs, duplicated delivery, ten shapes of the initialize request, unreadable workspace entries) against the real server thread in lockstep; protocol monitor over the recorded history",
    text="Every protocol fault kind of the quantifier is injected (each with a fired-counter in the evidence, swarm-enabled per run) into histories of up to 60 messages; the monitor checks exactly-once responses with the right id, no response to notifications or client responses, liveness after every step, a served recovery probe after the last fault, and Ok(()) (exit status 0) after shutdown + exit.",
    note="The stdio framing threads are replaced by in-memory capacity-0 channels; lsp-server's real-time 30 s exit timeout is never allowed to elapse; malformed params are outside the quantifier."),
  "C13": dict(cat="fault_enumeration", ref="§4 C13", technique="deterministic simulation with storage fault injection: real cli::check/echo/tokenize on a tmpfs disk where a seeded storage actor vanishes, replaces, truncates or rewrites paths at announced fs-points; agreement oracles over hook observations",
-   text="Every fault kind (missing path, dangling symlink, symlink loop, empty directory, sub-directory, vanish / file<->dir swap / rewrite / truncate at each of the five fs-points) is injected into generated file sets given as files, directory or mixture in scheduler-chosen order; the run's Result, the OK probe and the diagnostics handed to the renderer must agree, directory == file list, echo/tokenize == per-file truth.",
-   note="Exit status is the Result that main returns (a sampled cross-check of 150 fault-free and static-fault executions runs the shipped binary and compares real exit status, OK line and error[P…] codes); what is printed is read back from the captured stdout/stderr of every simulated process. A directory and its file list must agree on the verdict always and on the codes for valid and single-fault worlds. EACCES, mid-read EIO and per-entry readdir errors cannot be produced as root on tmpfs."),
+   text="Every fault kind (missing path, dangling symlink, symlink loop, empty directory, sub-directory, socket file, unreadable file / unreadable directory / unsearchable directory (real EACCES in a simulated process that has given up root), vanish / file<->dir swap / rewrite / truncate at each of the five fs-points) is injected into generated file sets given as files, directory or mixture in scheduler-chosen order; the run's Result, the OK probe and the diagnostics handed to the renderer must agree, directory == file list, echo/tokenize == per-file truth.",
+   note="Exit status is the Result that main returns (a sampled cross-check of 150 fault-free and static-fault executions runs the shipped binary and compares real exit status, OK line and error[P…] codes); what is printed is read back from the captured stdout/stderr of every simulated process. A directory and its file list must agree on the verdict always and on the codes for valid and single-fault worlds. Fault-free layouts include files present only as symbolic links. Mid-read EIO and per-entry readdir errors cannot be produced on tmpfs; a FIFO in a directory (blocking read) is deliberately not generated."),
  "C14": dict(cat="fault_enumeration", ref="§4 C14", technique="deterministic simulation with storage fault injection: a storage actor chooses the stored encoding per file and corrupts stored bytes (bit flips, truncation inside multi-byte sequences/BOM, garbage, concurrent rewrite); twin-world and structural oracles",
    text="Twin worlds (same text, independently drawn encodings out of UTF-8, UTF-8+BOM, UTF-16LE/BE+BOM, Windows-1252) must give the same verdict, codes and line/column positions through cli::check and the Project API; after any storage fault the run returns a Result with every label inside the decoded text on a char boundary; all 256 byte values at four positions are swept completely.",
    note="Weakest fit of the technique: the encoding equivalence is input-space sampling carried by the storage actor; claimed because the stored representation and its corruption are environment choices. The ambiguous case where Windows-1252 bytes happen to be valid UTF-8 is skipped."),
  "C15": dict(cat="exploration", ref="§4 C15", technique="deterministic simulation: semanticTokens requests interleaved in seeded edit histories (with crash/restart) against the real server thread in lockstep; responses decoded and compared with the lexemes of the current text and with a fresh server",
    text="Random edit histories with interleaved semanticTokens/full requests over generated documents with the trivia kinds of the quantifier; every response is decoded under the relative encoding and must be a strictly increasing, non-overlapping cover of lexemes of the current text with the right length and (for comments, identifiers, punctuation operators) class; null iff the current text has a lexical error; equal to a fresh server's answer.",
-   note="Lexeme boundaries and token kinds come from ironplc_parser::tokenize_program (trusted here; its correctness is C05, not claimed) except for one independent clause (text ending in VT / bare CR / NBSP / U+3000 must yield null); class clauses are implementation-neutral (comments, punctuation operators, definite keywords; identifiers may get any entry that is not another lexeme class; the word-operator family shares one entry); completeness is per token kind; ASCII documents; multi-line lexeme lengths are not compared."),
+   note="Lexeme boundaries and token kinds come from ironplc_parser::tokenize_program (trusted here; its correctness is C05, not claimed) except for one independent clause (text ending in VT / bare CR / NBSP / U+3000 must yield null); class clauses are implementation-neutral (comments, punctuation operators, definite keywords; identifiers may get any entry that is not another lexeme class; the word-operator family shares one entry); completeness is per token kind; for non-ASCII documents a response is accepted iff positions and lengths are exact in ONE unit (UTF-16, bytes or characters) used throughout; multi-line lexeme lengths are not compared."),
 }
 
 def main():
